@@ -75,9 +75,9 @@ CHECKS = {
     note=sysnote("Covering-array strength is what is measured, not the full product."),
     technique="TLA+ specs (Config.tla, PSRun.tla); covering-array runs of the implementation validated by TLC", design="DESIGN.md §4 C18"),
  "C20": dict(level="model_checking",
-    text="PARTIAL (ESS and trimming; the affine invariance of the volume metric is not addressed). Trim.tla models ESS as an exact rational and trim_weights as the code's loop (percentile grid, linear-interpolated percentile, mask >= threshold, search from the top); TLC checks ESS bounds / scale invariance / uniform case, the upper-set structure, the ESS-ratio guarantee, renormalisation, alignment and termination; every non-tie state is replayed into tools.trim_weights / effective_sample_size / compute_ess at scales 2^-400, 1, 2^400; a transliteration validated against every TLC state serves as oracle for long / extreme-range vectors.",
-    note="Trusted: TLC; numpy's percentile interpolation (read from source); states with exact ties or margins below 1e-9 are flagged by the spec and not replayed (counted). volume_variation is only monitored (non-negativity, n<d+1 guard).",
-    technique="TLA+ spec (Trim.tla) model-checked by TLC; enumerated states replayed into the implementation", design="DESIGN.md §4 C20"),
+    text="Trim.tla models ESS as an exact rational and trim_weights as the code's loop (percentile grid, linear-interpolated percentile, mask >= threshold, search from the top); TLC checks ESS bounds / scale invariance / uniform case, the upper-set structure, the ESS-ratio guarantee, renormalisation, alignment and termination; every non-tie state is replayed into tools.trim_weights / effective_sample_size / compute_ess at scales 2^-400, 1, 2^400; a transliteration validated against every TLC state serves as oracle for long / extreme-range vectors. VolVar.tla computes the volume-variation metric in exact rationals on small integer-lattice instances (d <= 2, N <= 4): TLC checks non-negativity and exact invariance under weight rescaling, permutation, translations and a generating set of invertible integer linear / affine maps, and refutes three wrong definitions; every instance is replayed into tools.volume_variation and through scale families (translations up to 1e8 x spread, scalings 2^+-20, anisotropic and rotated maps up to condition number 1e6, weights x 2^+-996) whose expected value is the spec's value for the small instance. Known finding: rotated maps of condition 1e6.",
+    note="Trusted: TLC; numpy's percentile interpolation (read from source); states with exact ties or margins below 1e-9 are flagged by the spec and not replayed (counted). Volume metric: exact instances are small (d <= 2, N <= 4); degenerate instances (guard / regularised covariance) are checked for guard value, finiteness and non-negativity only; per-member tolerances are fixed at >= 100x the worst error of the pinned code (<= 1e-5).",
+    technique="TLA+ specs (Trim.tla, VolVar.tla) model-checked by TLC; enumerated states replayed into the implementation incl. spec-derived scale families", design="DESIGN.md §4 C20"),
 }
 NA = {
  "C01": "ensemble statistics over seeds (bias of an estimator): no single behaviour can satisfy or violate it; TLC has no probability measure or real arithmetic",
